@@ -32,10 +32,11 @@ var solvers = []solverSpec{
 	{"z3-4.8.12", []string{"/usr/bin/z3", "-smt2"}},
 	{"z3-new-5.1.0", []string{"z3-new", "-smt2"}},
 	{"cvc5-1.0", []string{"cvc5", "--lang=smt2", "--produce-models"}},
+	{"z3-new-5.1.0-intblast", []string{"z3-new", "-smt2", "smt.bv.solver=2"}},
 }
 
 // SolverSet selects which solvers race (indices into solvers).
-var SolverSet = []int{0, 1}
+var SolverSet = []int{3, 1, 0}
 
 var tmpDir string
 var tmpOnce sync.Once
@@ -60,49 +61,89 @@ func Cleanup() {
 	}
 }
 
-// Solve races the configured solvers on text+"(check-sat)".
-func Solve(text string, timeout time.Duration) SolverResult {
+// runSolver runs one solver process on a file; returns first line status and full output.
+func runSolver(ctx context.Context, sp solverSpec, file string) (string, string) {
+	args := append([]string{}, sp.argv[1:]...)
+	args = append(args, file)
+	cmd := exec.CommandContext(ctx, sp.argv[0], args...)
+	var out bytes.Buffer
+	cmd.Stdout = &out
+	cmd.Stderr = &out
+	cmd.Run()
+	first := strings.TrimSpace(strings.SplitN(out.String(), "\n", 2)[0])
+	st := "error"
+	switch first {
+	case "sat", "unsat", "unknown":
+		st = first
+	}
+	if ctx.Err() != nil && st == "error" {
+		st = "timeout"
+	}
+	return st, out.String()
+}
+
+func newQueryFile(text string) string {
 	qMu.Lock()
 	qCounter++
 	n := qCounter
 	qMu.Unlock()
 	file := filepath.Join(TmpDir(), fmt.Sprintf("q%06d.smt2", n))
-	os.WriteFile(file, []byte(text+"(check-sat)\n"), 0o644)
+	os.WriteFile(file, []byte(text), 0o644)
+	return file
+}
+
+// trusted solvers decide; the int-blasting configuration of z3 (smt.bv.solver=2) is used only as a guide:
+// its unsat cores and models are re-checked by a trusted solver before anything is believed
+// (z3 5.1.0's int-blaster answered "unsat" on a satisfiable query of this project; see DESIGN.md).
+var trustedSolvers = []int{1, 0}
+var guideSolver = 3
+
+// UseGuide enables core/model guidance by the int-blasting solver.
+var UseGuide = true
+
+// SolveQ decides a query: sat / unsat / unknown, by trusted solvers only.
+func SolveQ(q *Query, timeout time.Duration) SolverResult {
 	ctx, cancel := context.WithTimeout(context.Background(), timeout)
 	defer cancel()
-	type res struct {
-		SolverResult
-	}
-	ch := make(chan SolverResult, len(SolverSet))
 	start := time.Now()
-	for _, si := range SolverSet {
+	file := newQueryFile("(set-option :produce-models true)\n" + q.Text + "(check-sat)\n")
+	ch := make(chan SolverResult, 8)
+	pending := 0
+	for _, si := range trustedSolvers {
 		sp := solvers[si]
+		pending++
 		go func(sp solverSpec) {
-			args := append([]string{}, sp.argv[1:]...)
-			args = append(args, file)
-			cmd := exec.CommandContext(ctx, sp.argv[0], args...)
-			var out bytes.Buffer
-			cmd.Stdout = &out
-			cmd.Stderr = &out
-			cmd.Run()
-			first := strings.TrimSpace(strings.SplitN(out.String(), "\n", 2)[0])
-			st := "error"
-			switch first {
-			case "sat", "unsat", "unknown":
-				st = first
-			}
-			if ctx.Err() != nil && st == "error" {
-				st = "timeout"
-			}
-			ch <- SolverResult{Status: st, Solver: sp.name, Ms: time.Since(start).Milliseconds(), Output: out.String(), File: file}
+			st, out := runSolver(ctx, sp, file)
+			ch <- SolverResult{Status: st, Solver: sp.name, Output: out, File: file}
 		}(sp)
 	}
+	if q.Alt != nil {
+		afile := newQueryFile(q.Alt.Text + "(check-sat)\n")
+		for _, si := range trustedSolvers {
+			sp := solvers[si]
+			pending++
+			go func(sp solverSpec) {
+				st, out := runSolver(ctx, sp, afile)
+				if st != "unsat" {
+					st = "unknown" // only unsat carries over from the integer translation
+				}
+				ch <- SolverResult{Status: st, Solver: sp.name + "+int", Output: out, File: afile}
+			}(sp)
+		}
+	}
+	if UseGuide {
+		pending++
+		go func() {
+			ch <- guided(ctx, q)
+		}()
+	}
 	best := SolverResult{Status: "timeout", File: file}
-	for range SolverSet {
+	for pending > 0 {
 		r := <-ch
+		pending--
 		if r.Status == "sat" || r.Status == "unsat" {
 			cancel()
-			// drain in background
+			r.Ms = time.Since(start).Milliseconds()
 			return r
 		}
 		if best.Status == "timeout" || (best.Status == "error" && r.Status != "timeout") {
@@ -111,6 +152,150 @@ func Solve(text string, timeout time.Duration) SolverResult {
 	}
 	best.Ms = time.Since(start).Milliseconds()
 	return best
+}
+
+// guided asks the int-blasting solver first, then confirms its answer with trusted solvers:
+// unsat -> the unsat core alone must be unsat for a trusted solver; sat -> the model's scalar values,
+// asserted as equalities, must be sat for a trusted solver.
+func guided(ctx context.Context, q *Query) SolverResult {
+	var b strings.Builder
+	b.WriteString("(set-option :produce-unsat-cores true)\n(set-option :produce-models true)\n")
+	b.WriteString(q.Header)
+	for i, a := range q.Asserts {
+		fmt.Fprintf(&b, "(assert (! %s :named a!%d))\n", a, i)
+	}
+	b.WriteString("(check-sat)\n(get-unsat-core)\n")
+	if len(q.Scalars) > 0 && len(q.Scalars) < 4000 {
+		b.WriteString("(get-value (")
+		for _, s := range q.Scalars {
+			fmt.Fprintf(&b, "|%s| ", s)
+		}
+		b.WriteString("))\n")
+	}
+	gfile := newQueryFile(b.String())
+	st, out := runSolver(ctx, solvers[guideSolver], gfile)
+	switch st {
+	case "unsat-core-disabled":
+		// (z3's int-blaster does not track all assertions in its cores; kept for reference)
+		// parse core
+		lines := strings.SplitN(out, "\n", 3)
+		if len(lines) < 2 {
+			return SolverResult{Status: "unknown", Solver: "guide"}
+		}
+		core := map[int]bool{}
+		for _, tok := range strings.Fields(strings.Trim(strings.TrimSpace(lines[1]), "()")) {
+			var k int
+			if _, err := fmt.Sscanf(tok, "a!%d", &k); err == nil {
+				core[k] = true
+			}
+		}
+		if len(core) == 0 {
+			return SolverResult{Status: "unknown", Solver: "guide"}
+		}
+		var cb strings.Builder
+		cb.WriteString(q.Header)
+		for i, a := range q.Asserts {
+			if core[i] {
+				fmt.Fprintf(&cb, "(assert %s)\n", a)
+			}
+		}
+		cb.WriteString("(check-sat)\n")
+		cfile := newQueryFile(cb.String())
+		return raceTrusted(ctx, cfile, fmt.Sprintf("+core(%d/%d) via intblast", len(core), len(q.Asserts)), "unsat")
+	case "sat":
+		// parse (get-value ...) output: pairs (|name| value)
+		idx := strings.Index(out, "((")
+		if idx < 0 {
+			return SolverResult{Status: "unknown", Solver: "guide"}
+		}
+		vals := parseGetValue(out[idx:])
+		if len(vals) == 0 {
+			return SolverResult{Status: "unknown", Solver: "guide"}
+		}
+		var mb strings.Builder
+		mb.WriteString("(set-option :produce-models true)\n")
+		mb.WriteString(q.Text)
+		for _, kv := range vals {
+			fmt.Fprintf(&mb, "(assert (= %s %s))\n", kv[0], kv[1])
+		}
+		mb.WriteString("(check-sat)\n")
+		mfile := newQueryFile(mb.String())
+		r := raceTrusted(ctx, mfile, "+model via intblast", "sat")
+		return r
+	}
+	return SolverResult{Status: "unknown", Solver: "guide"}
+}
+
+func raceTrusted(ctx context.Context, file, tag, want string) SolverResult {
+	ch := make(chan SolverResult, len(trustedSolvers))
+	for _, si := range trustedSolvers {
+		sp := solvers[si]
+		go func(sp solverSpec) {
+			st, out := runSolver(ctx, sp, file)
+			ch <- SolverResult{Status: st, Solver: sp.name + tag, Output: out, File: file}
+		}(sp)
+	}
+	res := SolverResult{Status: "unknown", Solver: "guide"}
+	for range trustedSolvers {
+		r := <-ch
+		if r.Status == want {
+			return r
+		}
+	}
+	return res
+}
+
+// parseGetValue parses "((|a| #x01) (|b| true) ...)" into name/value pairs (values may be parenthesised).
+func parseGetValue(s string) [][2]string {
+	var out [][2]string
+	i := 0
+	n := len(s)
+	if i < n && s[i] == '(' {
+		i++
+	}
+	for i < n {
+		for i < n && (s[i] == ' ' || s[i] == '\n' || s[i] == '\t') {
+			i++
+		}
+		if i >= n || s[i] != '(' {
+			break
+		}
+		i++
+		// name
+		start := i
+		if s[i] == '|' {
+			i++
+			for i < n && s[i] != '|' {
+				i++
+			}
+			i++
+		} else {
+			for i < n && s[i] != ' ' {
+				i++
+			}
+		}
+		name := s[start:i]
+		for i < n && s[i] == ' ' {
+			i++
+		}
+		vstart := i
+		depth := 0
+		for i < n {
+			if s[i] == '(' {
+				depth++
+			} else if s[i] == ')' {
+				if depth == 0 {
+					break
+				}
+				depth--
+			}
+			i++
+		}
+		val := strings.TrimSpace(s[vstart:i])
+		i++
+		out = append(out, [2]string{name, val})
+	}
+	return out
 }
 
 // Session is an interactive z3 process used for model extraction.
